@@ -10,7 +10,7 @@
      forall U ops, the answers of run_ops (mem_step U), of run_ops (fs_step U)
      and of run_ops (spec_sstep U) from the empty repository are pairwise equal. *)
 From Coq Require Import List NArith Bool Permutation.
-From GoGit Require Import Base.Out Spec.AStore Model.StorageAPI Proofs.AStoreFacts Proofs.C17.
+From GoGit Require Import Base.Out Spec.AStore Model.StorageAPI Proofs.AStoreFacts Proofs.C17 Proofs.C17Loose.
 Import ListNotations.
 Local Open Scope N_scope.
 
@@ -114,4 +114,47 @@ Example C17_guards_nonvacuous :
               SBase (OSetRef 4 (RHash 1)); SBase (OCas 4 (RSym 0) 4 (RHash 1)); SPackRefs; SBase (OGetRef 4);
               SBase OIterRefs; SBase (OCas 4 (RHash 2) 4 (RSym 5)); SBase (ODelRef 4)] in
   mem_guards U1 st_empty ops = true /\ fs_guards U1 fs_empty ops = true.
+Proof. vm_compute. split; reflexivity. Qed.
+
+(* ---- loose objects (storer.LooseObjectStorer: DeleteLooseObject, ForEachObjectHash)
+   over the extended alphabet xop = storer call | XDelLoose k | XEachHash.
+   The abstract store keeps the sets of loose and of packed copies next to the
+   set of objects present (lw_step over spec_sstep); the filesystem model is
+   lw_step over fs_step: the same guards as above are enough, deletion and
+   enumeration are unguarded. *)
+Theorem C17_loose_filesystem_refines_partial : forall U ops,
+  xfs_guards U (lw_init fs_empty) ops = true ->
+  LwRel (fst (run_xops (fs_step U) fs_del_obj (lw_init fs_empty) ops))
+        (fst (run_xops (spec_sstep U) st_del_obj (lw_init st_empty) ops))
+  /\ Forall2 res_equiv (snd (run_xops (fs_step U) fs_del_obj (lw_init fs_empty) ops))
+                       (snd (run_xops (spec_sstep U) st_del_obj (lw_init st_empty) ops)).
+Proof. intros U ops. apply xfs_run_spec. apply LwRel_empty. Qed.
+Print Assumptions C17_loose_filesystem_refines_partial.
+
+(* in every instance of the layer (abstract store, filesystem model): after a
+   successful DeleteLooseObject(k) the next ForEachObjectHash does not see k *)
+Theorem C17_loose_delete_then_enumerate : forall St (step : St -> sop -> St * res) del w k w',
+  lw_step step del w (XDelLoose k) = (w', ROk) ->
+  exists l, snd (lw_step step del w' XEachHash) = RIds l /\ nmem k l = false.
+Proof. exact @lw_del_then_each. Qed.
+Print Assumptions C17_loose_delete_then_enumerate.
+
+(* memory has no loose objects: deletion is refused and changes nothing, the
+   enumeration is the abstract store's listing of every object *)
+Theorem C17_loose_memory : forall U s k,
+  xmem_step U s (XDelLoose k) = (s, RErr ENotSupported)
+  /\ xmem_step U s XEachHash = (s, snd (spec_sstep U s (SBase (OIterObjs 0)))).
+Proof. exact xmem_loose. Qed.
+Print Assumptions C17_loose_memory.
+
+(* non-vacuity: write, pack, delete the loose copies (object 1 stays present
+   through its pack, object 0 disappears), enumerate, delete again (refused) *)
+Example C17_loose_nonvacuous :
+  let ops := [XOp (SBase (OSetObj 0)); XOp (SBase (OSetObj 1)); XOp (SAddPack [1; 2]); XOp (SBase (OHasObj 0));
+              XDelLoose 0; XEachHash; XOp (SBase (OIterObjs 0)); XDelLoose 1; XEachHash; XOp (SBase (OHasObj 1));
+              XDelLoose 2; XDelLoose 0] in
+  xfs_guards U1 (lw_init fs_empty) ops = true
+  /\ map o_res (snd (run_xops (fs_step U1) fs_del_obj (lw_init fs_empty) ops))
+     = [o_res (RNum 0); o_res (RNum 1); o_res ROk; o_res ROk; o_res ROk; o_res (RIds [1]); o_res (RIds [1; 2]);
+        o_res ROk; o_res (RIds []); o_res ROk; o_res (RErr ENotExist); o_res (RErr ENotExist)].
 Proof. vm_compute. split; reflexivity. Qed.
